@@ -30,3 +30,11 @@ Definition model_agrees_colval (tc : bool) (f : colform) (k k2 : kind) (raw : py
 Definition model_agrees_setcol (same_owner is_own_column same_len same_ids : bool) (k2 : kind) (raw : pyv)
   (observed : res val) : bool :=
   res_same (store_setcol same_owner is_own_column same_len same_ids k2 raw) observed.
+
+(* a scalar written through a form that addresses no cell: the L1 scalar write with n = 0 *)
+Definition model_agrees_zero (k : kind) (v : pyv) (observed : option exn) : bool :=
+  match store_scalar_n k 0 v, observed with
+  | Ok nil, None => true
+  | Raise e, Some e' => exn_eqb e e'
+  | _, _ => false
+  end.
